@@ -22,6 +22,7 @@ import dataclasses
 import itertools
 import random
 import time
+import typing
 import sys
 import types as pytypes
 from typing import Any, Dict, Iterator, List, Optional, Sequence, Tuple
@@ -54,6 +55,10 @@ class Desc:
     style: str = "both"
     targets: str = "str"  # "str": after / before / override keys given by name; "obj": by Field / function object
     aliases: Tuple[Tuple[str, str], ...] = ()  # element name -> external name (alias); ordering specs always refer to names
+    # where the field-level spec of a field is written: default = dataclass field metadata;
+    # (name, "ann", None): inside Annotated[int, order(..)] on the field type only;
+    # (name, "both", spec2): in the field metadata AND spec2 inside Annotated (equal or conflicting)
+    where: Tuple[Tuple[str, str, Spec], ...] = ()
 
     def ext(self, name: str) -> str:
         return dict(self.aliases).get(name, name)
@@ -72,13 +77,18 @@ class Desc:
         out = []
         al = dict(self.aliases)
 
-        def nm(n):
-            return n + ("~" + al[n] if n in al else "")
+        wh = {n: (m, sp2) for n, m, sp2 in self.where}
+
+        def nm(n, sp):
+            w = ""
+            if n in wh:
+                w = "@ann" if wh[n][0] == "ann" else "@both(ann" + (_s(wh[n][1]) or ":none") + ")"
+            return n + ("~" + al[n] if n in al else "") + _s(sp) + w
 
         for fs, ms, ov in self.levels:
-            s = "F[" + ",".join(nm(n) + _s(sp) for n, sp in fs) + "]"
+            s = "F[" + ",".join(nm(n, sp) for n, sp in fs) + "]"
             if ms:
-                s += "M[" + ",".join(nm(n) + _s(sp) for n, sp in ms) + "]"
+                s += "M[" + ",".join(nm(n, sp) for n, sp in ms) + "]"
             if ov is not None:
                 if ov[0] == "seq":
                     s += "@seq(" + ",".join(ov[1]) + ")"
@@ -121,6 +131,25 @@ def effective(desc: Desc) -> Dict[str, Spec]:
             for n, sp in ov[1]:
                 eff[n] = sp
     return eff
+
+
+def candidates(desc: Desc) -> List[Dict[str, Spec]]:
+    """the statement does not say which of a field's metadata and an Annotated annotation of its
+    type wins when both carry an order(...): every per-field choice is admitted (the same choice in
+    every view); without conflict there is one candidate"""
+    conflicts = []
+    fl = {n: sp for fs, _, _ in desc.levels for n, sp in fs}
+    for n, mode, sp2 in desc.where:
+        if mode == "both" and sp2 != fl.get(n):
+            conflicts.append((n, sp2))
+    out = [effective(desc)]
+    for k in range(1, 2 ** len(conflicts)):
+        lv = []
+        repl = {n: sp2 for i, (n, sp2) in enumerate(conflicts) if k >> i & 1}
+        for fs, ms, ov in desc.levels:
+            lv.append((tuple((n, repl.get(n, sp)) for n, sp in fs), ms, ov))
+        out.append(effective(dataclasses.replace(desc, levels=tuple(lv))))
+    return out
 
 
 def in_domain(elements: Sequence[str], eff: Dict[str, Spec]) -> bool:
@@ -192,6 +221,7 @@ def source_of(desc: Desc, uid: int) -> Tuple[str, str]:
     fieldset = set(desc.fields())
     by_obj = desc.targets == "obj"
     al = dict(desc.aliases)
+    wh = {n: (m, sp2) for n, m, sp2 in desc.where}
     lines: List[str] = []
     if desc.style == "both":
         for m in desc.methods():
@@ -229,8 +259,12 @@ def source_of(desc: Desc, uid: int) -> Tuple[str, str]:
         lines.append(f"class {cname}({prev}):" if prev else f"class {cname}:")
         body: List[str] = []
         for n, sp in fs:
-            md = ([f"alias({al[n]!r})"] if n in al else []) + ([ordering(sp, True)] if sp is not None else [])
-            body.append(f"    {n}: int = field(default=0" + (f", metadata={' | '.join(md)}" if md else "") + ")")
+            mode, sp2 = wh.get(n, ("meta", None))
+            in_meta = sp if mode != "ann" else None
+            in_ann = sp if mode == "ann" else (sp2 if mode == "both" else None)
+            md = ([f"alias({al[n]!r})"] if n in al else []) + ([ordering(in_meta, True)] if in_meta is not None else [])
+            tp = f"Annotated[int, {ordering(in_ann, True)}]" if in_ann is not None else "int"
+            body.append(f"    {n}: {tp} = field(default=0" + (f", metadata={' | '.join(md)}" if md else "") + ")")
             declared.add(n)
         late: List[str] = []
         for n, sp in ms:
@@ -275,10 +309,10 @@ class Realised:
         # a real (throw-away) module: dataclasses and typing.get_type_hints look the module up
         self.modname = f"c16_generated_{uid}"
         mod = pytypes.ModuleType(self.modname)
-        mod.__dict__.update({"dataclass": dataclasses.dataclass, "field": dataclasses.field, "order": order, "serialized": serialized, "resolver": resolver, "alias": alias, "_F": _F})
+        mod.__dict__.update({"dataclass": dataclasses.dataclass, "field": dataclasses.field, "order": order, "serialized": serialized, "resolver": resolver, "alias": alias, "_F": _F, "Annotated": typing.Annotated})
         sys.modules[self.modname] = mod
         try:
-            exec(compile(self.source, f"<{self.modname}>", "exec"), mod.__dict__)
+            exec(compile(self.source, f"<{self.modname}>", "exec", dont_inherit=True), mod.__dict__)
         except BaseException:
             sys.modules.pop(self.modname, None)
             raise
@@ -446,6 +480,28 @@ def with_aliases(desc: Desc, mode: str, mask: Optional[Sequence[bool]] = None) -
     return dataclasses.replace(desc, aliases=al)
 
 
+def with_where(desc: Desc, mode: str, rng: Optional[random.Random] = None) -> Desc:
+    """move / duplicate the field-level specs into Annotated: `ann` (only there), `both_same`,
+    `both_conflict` (the Annotated annotation carries another order value), `mixed` (random per field)"""
+    wh = []
+    for fs, _, _ in desc.levels:
+        for n, sp in fs:
+            m = mode if rng is None else rng.choice(["meta", "ann", "both_same", "both_conflict"])
+            if m == "meta":
+                continue
+            if m == "ann":
+                if sp is not None:
+                    wh.append((n, "ann", None))
+            elif m == "both_same":
+                if sp is not None:
+                    wh.append((n, "both", sp))
+            else:
+                other = ("o", 999) if sp != ("o", 999) else ("o", -1)
+                if sp is not None:
+                    wh.append((n, "both", other))
+    return dataclasses.replace(desc, where=tuple(wh))
+
+
 def random_desc(rng: random.Random, n: int, max_levels: int = 3) -> Desc:
     """random class: inheritance chain, field-level specs, class-level sequence / mapping on some
     levels, any method style, names or objects as targets"""
@@ -484,7 +540,8 @@ def random_desc(rng: random.Random, n: int, max_levels: int = 3) -> Desc:
     style = rng.choice(STYLES)
     desc = Desc(tuple(levels), style, rng.choice(["str", "str", "obj"]))
     mode = rng.choice(["none", "none", "upper", "rotate"])
-    return with_aliases(desc, mode, [rng.random() < 0.6 for _ in els]) if mode != "none" else desc
+    desc = with_aliases(desc, mode, [rng.random() < 0.6 for _ in els]) if mode != "none" else desc
+    return with_where(desc, "mixed", rng) if rng.random() < 0.4 else desc
 
 
 # ---------------------------------------------------------------------------
@@ -501,6 +558,8 @@ def feature_tags(desc: Desc, eff: Dict[str, Spec]) -> str:
         tags.append("attach")
     if desc.aliases:
         tags.append("alias")
+    if desc.where:
+        tags.append("annotated")
     return "+".join(tags) or "plain"
 
 
@@ -517,9 +576,9 @@ def run(report, tier: str, seed: int):
     log = report.driver(
         "order_views_vs_placement",
         bound=f"exhaustive: every class with <= {n_exh} elements (>= 1 field, rest serialized methods / resolvers), every assignment of "
-        f"{{none, order(-1|0|1|999), after=x, before=x (x any other element)}} as field-level metadata and again (size <= 3 exhaustively" + ("" if quick else ", 5 % sample at size 4") + ") as class-level mapping over decoy metadata, "
-        f"every class-level sequence over >= 2 of <= {n_seq} elements; base / derived class pairs with <= {n_small} elements (every cut, every field-level assignment, every pair of one-element overrides base x derived, sequence x sequence); the 4 other method declaration styles and aliased elements (upper-cased / rotated names) exhaustively at size <= {n_small}; sampled ({n_rand} seeded random classes with <= {n_max} elements): 1..3 inheritance levels, "
-        f"field-level specs + class-level sequence / mapping per level, 5 method declaration styles, targets by name or by Field / function object, aliases on a random subset; 5 views each",
+        f"{{none, order(-1|0|1|999), after=x, before=x (x any other element)}} as field-level metadata and again (" + ("size <= 2 exhaustively, 40 % seeded sample at size 3" if quick else "size <= 3 exhaustively, 5 % sample at size 4") + ") as class-level mapping over decoy metadata, "
+        f"every class-level sequence over >= 2 of <= {n_seq} elements; base / derived class pairs with <= {n_small} elements (every cut, every field-level assignment, every pair of one-element overrides base x derived, sequence x sequence); every field-level assignment again with the specs inside Annotated[int, order(..)] (exhaustive at size <= {n_small}, seeded sample of 25 % at size 3" + ("" if quick else " / 5 % at size 4") + f"; also in both places, equal or conflicting, and under class-level mappings, at size <= {n_small}, under inheritance at size <= 2); the 4 other method declaration styles and aliased elements (upper-cased / rotated names) exhaustively at size <= {n_small}; sampled ({n_rand} seeded random classes with <= {n_max} elements): 1..3 inheritance levels, "
+        f"field-level specs + class-level sequence / mapping per level, 5 method declaration styles, targets by name or by Field / function object, aliases on a random subset, specs in field metadata / Annotated / both on a random subset; 5 views each",
         label="B",
     )
     log.rule(
@@ -562,30 +621,47 @@ def run(report, tier: str, seed: int):
             views = r.json_views()
             views.update(next(gql))
             fields = set(desc.fields())
-            sub = set(subtree_of_method(desc, eff))
-            for view in VIEWS:
-                got = views[view]
-                with_methods = (view in ("ser", "sschema") and desc.style in JSON_METHOD_STYLES) or (view == "gql_out" and desc.style in GQL_METHOD_STYLES)
-                exp = [desc.ext(e) for e in perm if with_methods or e in fields]
-                vtag = tag + ("+field-under-absent-method" if (not with_methods and sub) else "")
-                if with_methods and view != "gql_out" and desc.style == "resolver_serialized" and any(sp is not None for _, ms, _ in desc.levels for _, sp in ms):
-                    vtag += "+order-given-to-resolver"
-                if isinstance(got, Exception):
-                    fail("crash", view, desc, vtag, repr(got), exp, f"raised {got!r}", r.source)
-                    continue
-                if got == exp:
-                    continue
-                if len(set(got)) != len(got):
-                    fail("duplicated", view, desc, vtag, got, exp, f"{got} contains an element twice (expected {exp})", r.source)
-                elif set(got) != set(exp):
-                    missing = [e for e in exp if e not in got]
-                    extra = [e for e in got if e not in exp]
-                    fail("lost", view, desc, vtag, got, exp, f"{got} lacks {missing}" + (f" and has unexpected {extra}" if extra else "") + f" (expected {exp})", r.source)
-                else:
-                    fail("order", view, desc, vtag, got, exp, f"{got} is not the statement's placement {exp}", r.source)
+
+            def diffs(eff_c, perm_c):
+                out = []
+                sub = set(subtree_of_method(desc, eff_c))
+                tag_c = feature_tags(desc, eff_c)
+                for view in VIEWS:
+                    got = views[view]
+                    with_methods = (view in ("ser", "sschema") and desc.style in JSON_METHOD_STYLES) or (view == "gql_out" and desc.style in GQL_METHOD_STYLES)
+                    exp = [desc.ext(e) for e in perm_c if with_methods or e in fields]
+                    vtag = tag_c + ("+field-under-absent-method" if (not with_methods and sub) else "")
+                    if with_methods and view != "gql_out" and desc.style == "resolver_serialized" and any(sp is not None for _, ms, _ in desc.levels for _, sp in ms):
+                        vtag += "+order-given-to-resolver"
+                    if isinstance(got, Exception):
+                        out.append(("crash", view, vtag, repr(got), exp, f"raised {got!r}"))
+                    elif got == exp:
+                        continue
+                    elif len(set(got)) != len(got):
+                        out.append(("duplicated", view, vtag, got, exp, f"{got} contains an element twice (expected {exp})"))
+                    elif set(got) != set(exp):
+                        missing = [e for e in exp if e not in got]
+                        extra = [e for e in got if e not in exp]
+                        out.append(("lost", view, vtag, got, exp, f"{got} lacks {missing}" + (f" and has unexpected {extra}" if extra else "") + f" (expected {exp})"))
+                    else:
+                        out.append(("order", view, vtag, got, exp, f"{got} is not the statement's placement {exp}"))
+                return out
+
+            # with an order() both in the field metadata and in Annotated and the two in conflict, the
+            # statement leaves the winner open: one choice per field, the same in all views
+            best = None
+            for eff_c in alts.get(id(desc), [eff]):
+                d = diffs(eff_c, placement(desc.elements(), eff_c))
+                known_only = all("+field-under-absent-method" in x[2] or "+order-given-to-resolver" in x[2] for x in d)
+                if best is None or (known_only and not best[1]) or (known_only == best[1] and len(d) < len(best[0])):
+                    best = (d, known_only)
+            for kind, view, vtag, got, exp, summary in best[0]:
+                fail(kind, view, desc, vtag, got, exp, summary, r.source)
         for r in ok:
             r.dispose()
         apischema.cache.reset()
+
+    alts: Dict[int, List[Dict[str, Spec]]] = {}
 
     def feed(gen):
         batch = []
@@ -594,12 +670,20 @@ def run(report, tier: str, seed: int):
             els = desc.elements()
             if not in_domain(els, eff):
                 continue
+            if desc.where:
+                cands = candidates(desc)
+                if not all(in_domain(els, c) for c in cands):
+                    continue
+                if len(cands) > 1:
+                    alts[id(desc)] = cands
             batch.append((desc, eff, placement(els, eff)))
             if len(batch) >= 40:
                 check_batch(batch)
                 batch = []
+                alts.clear()
         if batch:
             check_batch(batch)
+            alts.clear()
 
     timing = {}
 
@@ -611,10 +695,11 @@ def run(report, tier: str, seed: int):
     try:
         for n in range(1, n_exh + 1):
             stage("field_level", gen_field_level(n, "both"))
-            if n <= 3:
+            if n <= n_small or (n == 3 and not quick):
                 stage("class_mapping", gen_class_mapping(n, "both"))
-            else:  # size 4 (thorough): a seeded sample of the class-level mappings
-                stage("class_mapping", (d for d in gen_class_mapping(n, "both") if rng.random() < 0.05))
+            else:  # a seeded sample of the class-level mappings (size 3 in quick, size 4 in thorough)
+                frac = 0.4 if n == 3 else 0.05
+                stage("class_mapping", (d for d in gen_class_mapping(n, "both") if rng.random() < frac))
         for n in range(2, n_seq + 1):
             stage("sequences", gen_sequences(n, "both"))
         for n in range(2, n_small + 1):
@@ -629,6 +714,21 @@ def run(report, tier: str, seed: int):
                         stage("aliases", (with_aliases(d, mode) for d in gen_field_level(n, style)))
             for mode in ("upper", "rotate"):
                 stage("aliases", (with_aliases(d, mode) for d in gen_class_mapping(n, "both")))
+        # the field-level spec written inside Annotated[int, order(..)] (only there / also in the field
+        # metadata, equal or conflicting), alone and under class-level overrides
+        for n in range(1, n_exh + 1):
+            if n <= n_small:
+                stage("annotated", (with_where(d, "ann") for d in gen_field_level(n, "both")))
+            else:  # a seeded sample above the exhaustive size
+                frac = 0.25 if n == 3 else 0.05
+                stage("annotated", (with_where(d, "ann") for d in gen_field_level(n, "both") if rng.random() < frac))
+        for n in range(1, n_small + 1):
+            for mode in ("both_same", "both_conflict"):
+                stage("annotated", (with_where(d, mode) for d in gen_field_level(n, "both")))
+            stage("annotated", (with_where(d, "ann") for d in gen_class_mapping(n, "both")))
+            stage("annotated", (with_where(d, "ann") for d in gen_field_level(n, "serialized")))
+            if n <= 2:
+                stage("annotated", (with_where(d, "ann") for d in gen_inheritance(n)))
         stage("random", (random_desc(rng, rng.randint(2, n_max)) for _ in range(n_rand)))
         log.stats["stage_seconds"] = timing
     finally:
@@ -653,9 +753,9 @@ def replay(rp: dict) -> int:
 
     r.modname = "c16_replay"
     mod = pytypes.ModuleType(r.modname)
-    mod.__dict__.update({"dataclass": dataclasses.dataclass, "field": dataclasses.field, "order": order, "serialized": serialized, "resolver": resolver, "alias": alias, "_F": _F})
+    mod.__dict__.update({"dataclass": dataclasses.dataclass, "field": dataclasses.field, "order": order, "serialized": serialized, "resolver": resolver, "alias": alias, "_F": _F, "Annotated": typing.Annotated})
     sys.modules[r.modname] = mod
-    exec(compile(src, "<c16 replay>", "exec"), mod.__dict__)
+    exec(compile(src, "<c16 replay>", "exec", dont_inherit=True), mod.__dict__)
     r.cls = mod.__dict__[names[-1]]
     views = r.json_views()
     views.update(graphql_views([r])[0])
